@@ -418,7 +418,7 @@ def gen_lookalikes(tier):
 
 # ---- space (e): several program units in one file -------------------------------
 
-UNIT_KEYS = ["module", "program", "blockdata", "ext-sub", "ext-fn", "submodule"]
+UNIT_KEYS = ["module", "program", "blockdata", "ext-sub", "ext-fn", "submodule", "nested-sub", "nested-sub-rev"]
 
 
 def unit_alphabet(i, first_module):
@@ -441,7 +441,17 @@ def unit_alphabet(i, first_module):
 def build_files(case):
     _, _, seq = case
     first_module = next((f"um{i}" for i, k in enumerate(seq, 1) if k == "module"), None)
-    return SourceFile("m.f90", [unit_alphabet(i, first_module)[k]() for i, k in enumerate(seq, 1)])
+    units = []
+    for i, k in enumerate(seq, 1):
+        if k in ("nested-sub", "nested-sub-rev"):
+            # a submodule and a submodule of it; the child's name sorts before ("nested-sub") or after its parent's
+            par, child = (f"zpar{i}", f"achild{i}") if k == "nested-sub" else (f"apar{i}", f"zchild{i}")
+            units.append(Unit("submodule", par, items=[VarItem(Var(f"pv{i}", "integer"))], ancestor=first_module, procs=[Proc("subroutine", f"ps{i}", args=[])]))
+            units.append(Unit("submodule", child, items=[VarItem(Var(f"cv{i}", "real"))], ancestor=first_module, parent_submodule=par,
+                              procs=[Proc("function", f"cf{i}", args=[], rettype="integer", body=[f"cf{i} = 1"])]))
+        else:
+            units.append(unit_alphabet(i, first_module)[k]())
+    return SourceFile("m.f90", units)
 
 
 def gen_files(tier):
@@ -449,7 +459,7 @@ def gen_files(tier):
     out = []
     for n in (1, 2, 3):
         for seq in itertools.product(UNIT_KEYS, repeat=n):
-            if seq.count("program") > 1 or ("submodule" in seq and "module" not in seq):
+            if seq.count("program") > 1 or (({"submodule", "nested-sub", "nested-sub-rev"} & set(seq)) and "module" not in seq):
                 continue
             if tier == "quick":
                 b = 1 if n <= 2 or "blockdata" in seq else 0
